@@ -7,7 +7,7 @@
   are compiled with / without a run-time "unbound" check (wrapper around ExprNodes.NameNode.generate_result_code).
 """
 
-_state = {'inferred': [], 'names': {}, 'calls': 0}
+_state = {'inferred': [], 'names': {}, 'calls': 0, 'unbound_msgs': []}
 
 
 def install(args):
@@ -45,9 +45,33 @@ def install(args):
 
     NameNode.generate_result_code = generate_result_code
 
+    # complete list of "referenced before assignment" diagnostics of check_definitions (the error text kept by the
+    # worker is truncated): [line, name, 'definite' | 'maybe', 'error' | 'warning']
+    from Cython.Compiler import FlowControl
+    if not FlowControl.__file__.endswith('.py'):
+        raise RuntimeError('FlowControl is not the mirrored python source')
+
+    def wrap(fn, level):
+        def report(position, message, *a, **k):
+            try:
+                if 'referenced before assignment' in message:
+                    import re
+                    m = re.search(r"local variable '(\w+)'", message)
+                    _state['unbound_msgs'].append([position[1], m.group(1) if m else '?',
+                                                   'maybe' if 'might be' in message else 'definite', level])
+            except Exception:
+                pass
+            return fn(position, message, *a, **k)
+        return report
+
+    FlowControl.warning = wrap(FlowControl.warning, 'warning')
+    FlowControl.error = wrap(FlowControl.error, 'error')
+
 
 def per_job(job, result):
-    out = {'inferred': _state['inferred'], 'names': _state['names'], 'infer_calls': _state['calls']}
+    out = {'inferred': _state['inferred'], 'names': _state['names'], 'infer_calls': _state['calls'],
+           'unbound_msgs': _state['unbound_msgs']}
+    _state['unbound_msgs'] = []
     _state['inferred'] = []
     _state['names'] = {}
     _state['calls'] = 0
